@@ -26,7 +26,7 @@ RULE = ('random histories x fault positions; non-trivial = at least one reconnec
         '(list / watch@rv) and stream outcomes')
 ASSUMPTIONS = ['the fake API server delivers a consistent, gap-free log from the requested resourceVersion (as etcd does) or answers 410', 'namespaces are served as given by the patterns (fnmatch)']
 SANITIZE_LOOP_ERRORS = True      # an exception inside an asyncio callback during the simulation is a violation here (runner.run_case_sanitized)
-GATES = {'deletions_of_shown_objects': 50, 'runs': 200, 'streams': 1500, 'reconnects': 600, 'relists': 300, 'resume_checks': 600, 'gone_410': 20, 'coverage_checks': 1500, 'delivered_events': 600,
+GATES = {'deletions_of_shown_objects': 50, 'namespaced_peering_runs': 6, 'runs': 200, 'streams': 1500, 'reconnects': 600, 'relists': 300, 'resume_checks': 600, 'gone_410': 20, 'coverage_checks': 1500, 'delivered_events': 600,
          'cluster_changes': 150, 'pauses': 15, 'digit_crossings': 10, 'fatal_error_runs': 15, 'bookmarks_seen': 30}
 
 WIDGETS = dict(group='kopf.dev', version='v1', plural='kopfwidgets', kind='KopfWidget', namespaced=True)
@@ -216,6 +216,25 @@ def directed() -> list[dict[str, Any]]:
                                                              'settings': {'queueing__idle_timeout': idle, 'watching__reconnect_backoff': 0.1}, 'operator_kwargs': {'namespaces': ['ns*']},
                                                              'extra_resources': [], 'kube': {}, 'end': 'stop', 'exit_wait': 60.0, 'mode': 'pattern', 'fatal': False, 'post_yields': yields,
                                                              'lag': {'values': [lat]}}})
+    # peering per namespace: the operator is paused through the peering object of ONE of its namespaces, and that namespace disappears while it is paused --
+    # nothing blocks it any more: watching restarts with a fresh listing of the pairs that are left, later changes reach processing
+    for yields in (0, 2):
+        for t_del in (9.0, 12.0):
+            for how in ('ns_del', 'unpeer', 'expire'):
+                k += 1
+                life = 4 if how == 'expire' else 600
+                tl = [[0.0, 'create', 'ns1/o0', {'spec': {'x': 0}}], [0.0, 'create', 'ns2/o1', {'spec': {'x': 0}}], [0.5, 'start', 'op1'],
+                      [6.0, 'peer', 'boss', 100, life, None, 'ns2']]
+                if how == 'ns_del':
+                    tl.append([t_del, 'ns_del', 'ns2'])
+                elif how == 'unpeer':
+                    tl.append([t_del, 'unpeer', 'boss', 'ns2'])
+                tl += [[20.0, 'edit', 'ns1/o0', {'spec': {'x': 7}}]]
+                out.append({'name': f'dirq{k}-{how}', 'desc': {'seed': k, 'handlers': [{'kind': 'event', 'id': 'ev'}, {'kind': 'event', 'id': 'evw', 'resource': 'kopfwidgets'}], 'timeline': tl,
+                                                               'quiet': 8.0, 'horizon': 300.0, 'latency': 0.001, 'namespaces': ['ns1', 'ns2'], 'peering': {'name': 'default', 'namespaced': True},
+                                                               'settings': {'queueing__idle_timeout': 1.0, 'watching__reconnect_backoff': 0.1}, 'operator_kwargs': {'namespaces': ['ns*']},
+                                                               'extra_resources': [], 'kube': {}, 'end': 'stop', 'exit_wait': 60.0, 'mode': 'pattern', 'fatal': False, 'post_yields': yields, 'lag': None,
+                                                               'ns_peering_case': {'blocked_from': 6.0, 'free_from': t_del if how != 'expire' else 10.0, 'probe_x': 7, 'how': how}}})
     return out
 
 
@@ -242,6 +261,31 @@ def run_case(case: dict[str, Any]) -> dict[str, Any]:
     inc = 'op1'
     incobj = w.incs[inc]
     kube = w.sim.kube
+    if desc.get('ns_peering_case'):
+        # Peering per namespace. The pause is not read off the toggle probe here (a toggle that is DROPPED with its namespace is never turned off): the expectation
+        # comes from the scenario -- blocked while a live higher-priority record sits in the peering object of an existing served namespace, free afterwards.
+        pc = desc['ns_peering_case']
+        t0, t1 = pc['blocked_from'], pc['free_from']
+        ex = [s_ for s_ in kube.streams if s_.client.name == inc and s_.plural == 'kopfexamples' and s_.ns == 'ns1']
+        cov['namespaced_peering_runs'] = 1
+        open_while_blocked = [s_ for s_ in ex if s_.opened < t1 - 0.5 and (s_.closed_at is None or s_.closed_at > t0 + 1.5) and s_.opened > t0 + 1.5]
+        if not any(s_.closed_at is not None and t0 <= s_.closed_at <= t0 + 1.5 for s_ in ex):
+            viol.append({'mech': 'watching-while-paused', 'msg': f"a peer of higher priority appeared in ns2's peering object at t={t0}: the watch of (kopfexamples, ns1) was not closed within 1.5s", 'witness': None})
+        if open_while_blocked:
+            viol.append({'mech': 'watching-while-paused', 'msg': f"(kopfexamples, ns1) was watched anew at t={open_while_blocked[0].opened} while the operator had to be paused ({t0}..{t1})", 'witness': None})
+        lists_after = [r for r in w.requests if r.client == inc and r.kind == 'list' and r.plural == 'kopfexamples' and r.ns == 'ns1' and r.t >= t1 - 1e-6]
+        open_after = [s_ for s_ in ex if s_.opened >= t1 - 1e-6]
+        probe = [c for c in ix.calls if c['inc'] == inc and c['h'] == 'ev' and (c.get('spec') or {}).get('x') == pc['probe_x']]
+        bound = t1 + (6.0 if pc['how'] == 'expire' else 3.0)
+        if not lists_after or not open_after or open_after[0].opened > bound or (lists_after and lists_after[0].t > open_after[0].opened + 1e-6):
+            viol.append({'mech': 'not-resumed-after-blocker-gone', 'msg': f"nothing blocks the operator from t={t1} on ({pc['how']}): a fresh listing and a watch of (kopfexamples, ns1) are expected by t={bound}; "
+                                                                          f"listings at {[round(r.t, 3) for r in lists_after][:3]}, watches opened at {[round(s_.opened, 3) for s_ in open_after][:3]}", 'witness': None})
+        if not probe:
+            viol.append({'mech': 'change-never-reached-processing', 'msg': f"the edit of ns1/o0 (x={pc['probe_x']}) made after the pause had to end never reached the event handler", 'witness': None})
+        if incobj.exc is not None:
+            viol.append({'mech': 'operator-crashed', 'msg': f'kopf.operator() raised {incobj.exc!r}', 'witness': None})
+        return {'violations': viol, 'cov': cov, 'sig': hashlib.sha1(repr((case['name'], [round(s_.opened, 3) for s_ in ex])).encode()).hexdigest()[:16], 'nontrivial': True, 'sample': None,
+                'trace': trace_lines(w) if case.get('_verbose') else None}
     kinds = ['kopfexamples', 'kopfwidgets']
     mode = desc['mode']
     patterns = (desc.get('operator_kwargs') or {}).get('namespaces')
